@@ -63,6 +63,12 @@ func checkC01(c *Ctx) {
 	c.Rule("C01-R23", "a pass that clears the terminal repaints everything: the clear flag is raised only together with cells.Invalidate() (a pass paints dirty cells only)")
 	c.Expect("C01-R23", 1)
 	checkClearImpliesInvalidate(c, p, "C01-R23", "tScreen")
+	c.Rule("C01-R24", "Fill resolves ColorNone per cell on a copy of the style it was given (resolved in the parameter itself, the first cell's colours are handed to all the others; = C08-R5)")
+	c.Expect("C01-R24", 2)
+	c.asRule("C08-R5", "C01-R24", func() { c08Merge(c, p, cbMethods(p)) })
+	c.Rule("C01-R25", "a style change starts from the attribute reset: in drawCell every colour selection and attribute switch is preceded by AttrOff on every path (underline colour and derived reverse video are not in the attribute mask and only the reset takes them away)")
+	c.Expect("C01-R25", 1)
+	checkStyleChangeStartsFromReset(c, p, "C01-R25")
 	get := func(name string) *ssa.Function {
 		fn := p.Fn("tcell:(*tScreen)." + name)
 		if fn == nil {
